@@ -40,13 +40,25 @@ def load_baseline(prop):
     return set(json.load(open(p))['discharged_clause_keys'])
 
 
+def load_baseline_vcs(prop):
+    """hashes of the verification conditions (hypotheses + goal) that were discharged on the unchanged tree"""
+    p = os.path.join(HERE, 'baseline', prop + '.json')
+    if not os.path.exists(p):
+        return set()
+    return set(json.load(open(p)).get('discharged_vc_hashes', []))
+
+
 def write_baseline(prop, all_recs):
     bad = {clause_key(r) for r in all_recs if r['verdict'] != 'proved'}
     keys = sorted({clause_key(r) for r in all_recs if r['verdict'] == 'proved'} - bad)
     os.makedirs(os.path.join(HERE, 'baseline'), exist_ok=True)
     json.dump({'property': prop, 'comment': 'clauses (unit|case|clause, path independent) whose every obligation is discharged on the unchanged tree; '
                'an obligation of such a clause that later cannot be discharged is reported as a violation (no-failing-input-found) rather than as undecided',
-               'discharged_clause_keys': keys}, open(os.path.join(HERE, 'baseline', prop + '.json'), 'w'), indent=0)
+               'discharged_clause_keys': keys,
+               'comment_vc_hashes': 'sha1 of (hypotheses, goal) of every non-trivial obligation discharged on the unchanged tree: when the IDENTICAL formula gets no '
+               'solver verdict in a later run (load, seed) that is reported as UNDECIDED (exit 2) after one retry with a larger budget, never as a violation',
+               'discharged_vc_hashes': sorted({r['vc_hash'] for r in all_recs if r['verdict'] == 'proved' and r.get('vc_hash')})},
+              open(os.path.join(HERE, 'baseline', prop + '.json'), 'w'), indent=0)
     print('baseline/%s.json: %d clause keys' % (prop, len(keys)))
 
 
@@ -134,7 +146,12 @@ def finish(prop, tier, seed, units, results, wall, verbose=False, partial=False,
     still_undecided = []
     for rec in undecided:
         ck = clause_key(rec)
-        if ck in baseline:
+        if ck in baseline and rec.get('same_vc_as_baseline'):
+            # the IDENTICAL formula was discharged on the unchanged tree: the code did not change this obligation, the solver just
+            # gave no verdict this time (load / seed) -- undecided, never a violation
+            rec['reason'] = 'identical verification condition was discharged on the unchanged tree; no solver verdict this time (%s)' % (rec['reason'] or 'unknown')
+            still_undecided.append(rec)
+        elif ck in baseline:
             # this clause was discharged on the unchanged tree and now fails: reported as a violation with the solver's reason
             if ck in reported_ck:
                 continue
